@@ -83,6 +83,13 @@ def sp_text(sp):
 
 
 def generate(tier, rng):
+    kinds = ["delete", "truncate", "replace"]
+    for k1 in kinds:
+        for k2 in kinds:
+            for ids_ in ("default", "all"):
+                yield {"kind": "staged", "first": [[0, k1]], "second": [[1, k2]], "ids": ids_}
+                yield {"kind": "staged", "first": [[2, k1]], "second": [[0, k2], [3, k1]], "ids": ids_}
+    yield {"kind": "staged", "first": [], "second": [[1, "delete"]], "ids": "default"}
     nfiles_exh = 5 if tier == "quick" else 12
     # exhaustive single damages of one job in a 2-job project
     for fi in range(nfiles_exh):
@@ -131,6 +138,8 @@ def search(rng, deadline):
 
 
 def shrink(case):
+    if case.get("kind") == "staged":
+        return
     d = case["damages"]
     for i in range(len(d)):
         if len(d) > 1:
@@ -220,7 +229,83 @@ def snapshot_payload(ws):
     return snap
 
 
+def run_staged(case, ctx):
+    """Damage that arrives in STAGES within one session: damage, check(), more damage (to other jobs), repair().
+    Whatever the session learnt from the earlier check(), repair() (with the default selection, or the full id list)
+    looks at the workspace as it is NOW: with every state point in the cache it restores all of them.  Oracle only."""
+    import signac
+    from signac.errors import JobsCorruptedError
+
+    path = ctx.fresh_dir("c09s")
+    oracle = []
+    try:
+        project = signac.init_project(path)
+        sps = [{"a": n, "b": {"c": "x%d" % n}} for n in range(4)]
+        jobs = [project.open_job(sp).init() for sp in sps]
+        for j in jobs:
+            j.doc["payload"] = j.id[:6]
+        project.update_cache()
+        s = signac.Project(path)
+
+        def damage(n, kind):
+            fn = os.path.join(s.workspace, jobs[n].id, "signac_statepoint.json")
+            if kind == "delete":
+                os.remove(fn)
+            elif kind == "truncate":
+                with open(fn, "r+b") as f:
+                    f.truncate(3)
+            else:
+                with open(fn, "w") as f:
+                    json.dump({"zz": "other"}, f)
+
+        def run_check(pr):
+            try:
+                pr.check()
+                return []
+            except JobsCorruptedError as e:
+                return sorted(e.job_ids)
+
+        first, second = case["first"], case["second"]
+        for n, kind in first:
+            damage(n, kind)
+        rep1 = run_check(s)
+        if rep1 != sorted(jobs[n].id for n, _ in first):
+            oracle.append("staged: check() after the first damage names %s" % rep1)
+        for n, kind in second:
+            damage(n, kind)
+        try:
+            if case["ids"] == "default":
+                s.repair()
+            else:
+                s.repair(job_ids=[j.id for j in jobs])
+            rep = []
+        except JobsCorruptedError as e:
+            rep = sorted(e.job_ids)
+        except Exception as e:  # noqa: BLE001
+            rep = ["EXC:" + exc_name(e)]
+        left_same = run_check(s)
+        left_fresh = run_check(signac.Project(path))
+        if rep or left_same or left_fresh:
+            oracle.append("staged damage (first %s, check(), then %s; every state point is in the cache): repair() reported %s; "
+                          "afterwards check() names %s in the same session, %s in a fresh one" % (
+                              first, second, rep, left_same, left_fresh))
+        for j, sp in zip(jobs, sps):
+            fn = os.path.join(s.workspace, j.id, "signac_statepoint.json")
+            try:
+                with open(fn) as f:
+                    now = json.load(f)
+            except Exception:  # noqa: BLE001
+                now = None
+            if now != sp and not oracle:
+                oracle.append("staged damage: after repair() the state point file of %s holds %r" % (j.id, now))
+    finally:
+        ctx.cleanup(path)
+    return {"model": [], "impl": [], "oracle": oracle, "tags": ["staged-damage"], "key": "staged" + json.dumps(case, sort_keys=True)}
+
+
 def run_case(case, ctx):
+    if case.get("kind") == "staged":
+        return run_staged(case, ctx)
     import signac
     from signac.errors import JobsCorruptedError
 
